@@ -284,3 +284,36 @@ def _merge_children(test, a, b, depth):
         else:
             raise _NoMerge
     return tuple(out)
+
+
+def ctor_wiring(s, rule, cls, necessary_for="", skip=()):
+    """Every constructor parameter that has a like-named attribute reaches that attribute, and only it does (no other constructor
+    parameter is mixed in). `x if x is not None else <default>` is accepted. Returns the number of attributes examined."""
+    from ..vgraph import show
+    ci, dc, fn = s.method(cls, "__init__")
+    b = s.builder(inline=set())
+    loc = s.loc(cls, "__init__")
+    own = [a.arg for a in fn.args.posonlyargs + fn.args.args + fn.args.kwonlyargs if a.arg not in ("self",)]
+    n = 0
+    from ..vgraph import Ctx
+    paths = live(b.paths(fn, Ctx(dc.module, dc, fn, ci), max_paths=600))
+    seen = set()
+    for p in paths:
+        for name in own:
+            if name in skip:
+                continue
+            v = p.self_attrs.get(name)
+            if v is None:
+                continue
+            ps = {x[1] for x in walk(v) if isinstance(x, tuple) and x and x[0] == "param"} - {"self"}
+            none_on = any(isinstance(t, tuple) and t[0] == "cmp" and t[3] == NONE and t[2] == ("param", name) and ((t[1] == "IsNot" and not val) or (t[1] == "Is" and val))
+                          for t, val in p.conds)
+            ok = (name in ps and ps <= {name}) or none_on
+            key = (name, ok, show(v, maxlen=100))
+            if key in seen:
+                continue
+            seen.add(key)
+            n += 1
+            s.ob(rule, f"{cls}.__init__.{name}", ok, f"attribute `{name}` is set from the constructor argument `{name}` and from no other argument", loc, key=f"ctor-{name}",
+                 detail=show(v, maxlen=140), necessary_for=necessary_for)
+    return n
